@@ -62,6 +62,7 @@ func C20(ctx *core.Ctx, r *core.Report) {
 	c20ConstructorsFresh(ctx, r)
 	c20SharedContainers(ctx, r, reachAll, inScope)
 	c20GlobalsHoldNoMutableObjects(ctx, r)
+	c20FieldWritesReplace(ctx, r)
 	// sorting (in place) a slice a schema accessor handed out re-orders the shared module
 	r.Count("instances:textual-order-kept(sort calls in node, nodeutil)", textualOrderKept(ctx, r, append(scopeFuncs(ctx, "nodeutil"), scopeFuncs(ctx, "node")...)))
 }
